@@ -137,7 +137,29 @@ def run(rep, info, model, tier, seed):
         rep.broken("correspondence C17: the model disagrees with a fresh WebSocket on %d second-connection scenarios; first %r" % (dis, first))
     rep.families.append(dict(name="C17:reconnect-pairs", cases=len(pairs), disagreements=dis,
                              rule="connection 1 on a WebSocket object ends mid-header / mid-frame / inside a UTF-8 character / mid-fragmented message / mid-compression-context with takeover / while closing / close timeout / gracefully / rejected / connect failure / protocol error / unresponsive / abandoned at each event by each mechanism; connection 2 runs a fixed battery (fragmented text with a ping inside, binary, optional compression, sends, timers, close handshake) under random segmentation; its full trace and its upgrade request must equal a freshly constructed object's, the handshake keys must differ"))
-    # persist chains end to end
+    # the regenerated inventory, read directly: it names the offending object when the tie proof breaks
+    try:
+        import re
+        inv = open(core.os.path.join(core.COQ, "gen", "GenInventory.v")).read()
+        lists = {k: re.findall(r'"([^"]*)"', v) for k, v in re.findall(r"Definition (\w+) : list string := \[(.*?)\]\.", inv)}
+        rebuilt = "state_rebuilt : bool := true" in inv
+        rep.add_case("inventory")
+        allowed = {"_headers", "protocols", "proxies"}
+        bad = []
+        if lists.get("class_mutated"):
+            bad.append("class-level or module-level state was modified by running connections: %s (it is shared by every later connection of the process)" % ", ".join(lists["class_mutated"]))
+        if lists.get("carried_into_state"):
+            bad.append("objects of the previous connection are reachable from the new connection's state: %s" % ", ".join(lists["carried_into_state"]))
+        extra = [x for x in lists.get("carried_over", []) if x not in allowed]
+        if extra:
+            bad.append("mutable objects survive connect() on the WebSocket object outside its configuration: %s" % ", ".join(extra))
+        if not rebuilt:
+            bad.append("connect() did not replace the per-connection state object")
+        for b in bad:
+            rep.violation(b, scenario=dict(kind="inventory", how="tools/regen.py gen_inventory: three scripted connections (compressed, reconnect on the same object, plain on a fresh object); the object graph and all class/module-level containers of lomond are compared before and after"), family="C17:inventory")
+        rep.families.append(dict(name="C17:inventory", cases=1, rule="object-graph walk from the WebSocket before/after a second connect(), and a snapshot of every mutable class attribute and module global of all lomond modules before/after three connections"))
+    except Exception as e:
+        rep.broken("the regenerated inventory could not be read: %r" % (e,))
     if not proof_ok and not rep.violations:
         rep.broken("proof obligation props/C17.v no longer checks: %s" % (rep.coq_failure,))
 
